@@ -117,7 +117,11 @@ def build(shape, nvals, mn_seed):
         vals = []
         for e in range(n):
             key = "#d%d_%d" % (j, e)
-            table[key] = sym_int("value_%d_%d" % (j, e), 0)
+            if e >= 1 and sym_bool("value_%d_%d_is_spelled_like_the_first" % (j, e)):
+                # the same literal text twice in one declaration (`.word 7, 3, 7`): one token string, hence one value
+                key = keys[0]
+            else:
+                table[key] = sym_int("value_%d_%d" % (j, e), 0)
             keys.append(key)
             vals.append(table[key])
         data.append((50 + j, "line", VarTok(var_names[j], keys)))
